@@ -412,6 +412,18 @@ def concrete_violation(name):
         return True, f'{name}: raises {type(e).__name__}: {e}'
     if not (np.array_equal(st0[1], st1[1]) and st0[2] == st1[2]):
         return True, f'{name}: a seeded sample() call changed the global NumPy random state'
+    # a failing sample() call (negative size) must leave the global state alone as well
+    c = mk()
+    c.set_random_state(5)
+    np.random.seed(321)
+    st0 = np.random.get_state()
+    try:
+        c.sample(-1, **kw)
+    except Exception:
+        pass
+    st1 = np.random.get_state()
+    if not (np.array_equal(st0[1], st1[1]) and st0[2] == st1[2]):
+        return True, f'{name}: a sample() call that raised left the global NumPy random state changed'
     if not np.allclose(a1, b1, equal_nan=True):
         return True, f'{name}: two equal models with the same seed give different samples: {a1.ravel()[:3]} vs {b1.ravel()[:3]}'
     if np.allclose(a1, a2):
